@@ -34,8 +34,9 @@ class Contract:
                  invariants=None, serves=(), trusted=False, module=None, locals=None,
                  inline=False, note='', cut_before=None, kwparams=None, pure=False,
                  effects_exc=(), vararg=None, assume_after=None, abstract=None,
-                 ghost_in_body=None, observe=(), generator=False, defaults=None, kwarg=None, kwarg_keys=(), exc_fields=None, ghost_before=None, raises_exact=True, reads=None):
+                 ghost_in_body=None, observe=(), generator=False, defaults=None, kwarg=None, kwarg_keys=(), exc_fields=None, ghost_before=None, raises_exact=True, reads=None, inout=()):
         self.name = name
+        self.inout = list(inout)               # inline callees: value-semantic parameters mutated in place, written back
         self.params = dict(params or {})
         self.returns = returns
         self.requires = list(requires)
